@@ -427,7 +427,8 @@ def run(repo: Repo, chk: Check, thorough: bool = False) -> None:
                     isinstance(n.test.comparators[0], ast.Constant) and isinstance(n.test.comparators[0].value, str):
                 repl = [st.value.value for st in n.body if isinstance(st, ast.Assign) and isinstance(st.value, ast.Constant) and isinstance(st.value.value, str)]
                 handled[n.test.comparators[0].value] = repl[0] if repl else None
-        for n in g.walk():
+        from ..util import scope_nodes as _scope_nodes
+        for n in _scope_nodes(repo, g):      # the table may be a module constant (`_STR_ESCAPES.get(c, c)`)
             if isinstance(n, ast.Dict):
                 for k_, v_ in zip(n.keys, n.values):
                     if isinstance(k_, ast.Constant) and isinstance(k_.value, str) and isinstance(v_, ast.Constant):
